@@ -223,7 +223,43 @@ class FD:
             return bt     # builtin exception classes are data for handler matching / isinstance hooks
         if e.id in _BUILTINS:
             return _BUILTINS[e.id]     # a modelled builtin used as a value (key=len)
+        if e.id in self.calls:
+            # a callable the harness models (a class or function), used as a value: `cls = A if flag else B; cls()`
+            # (only when nothing else gives the name a value: resolver constants and module bindings come first)
+            return self._callable_value(e.id)
         raise Inconclusive('fdeval: unbound name %s' % e.id)
+
+    def _super_proxy(self, cls, obj):
+        """super() inside a method of pedal class `cls`: methods are looked up in cls's pedal base classes; a base class
+        outside pedal (io.StringIO, Exception, ...) has an __init__ that is taken to do nothing a model needs."""
+        ci = self.sym.classes.get((getattr(cls, '_module', None).name if getattr(cls, '_module', None) else None,
+                                   getattr(cls, '_qualname', cls.name)))
+        bases = self.sym.mro(ci)[1:] if ci is not None else []
+        external = ci is None or any(not hasattr(b, 'node') for b in getattr(ci, 'bases', [])) or not bases
+        proxy = Obj('super(%s)' % cls.name)
+
+        def lookup(name, *a, **k):
+            for b in bases:
+                fn = b.methods.get(name) if hasattr(b, 'methods') else None
+                if fn is not None:
+                    return self.call_function(fn, list(a), k, bound_self=obj)
+            if name == '__init__' and external:
+                return None
+            raise Inconclusive('fdeval: super().%s of %s' % (name, cls.name))
+        proxy.attrs['__unknown_method__'] = lookup
+        return proxy
+
+    def _callable_value(self, name):
+        cache = self.__dict__.setdefault('_callable_values', {})
+        if name not in cache:
+            target = self.calls[name]
+
+            def standin(*a, **k):
+                return target(*a, **k)
+            standin._fd_callable = True
+            standin._fd_name = name
+            cache[name] = standin
+        return cache[name]
 
     def module_name(self, name):
         """Value of a global name as seen from the module of the function being interpreted: a module-level constant
@@ -750,6 +786,8 @@ class FD:
             kwargs = {k.arg: self.eval(k.value, env) for k in e.keywords}
             kwargs.update(star_kwargs)
             return self.calls[name](*args, **kwargs)
+        if name == 'super' and not e.args and '__super_of__' in env and self.sym is not None:
+            return self._super_proxy(*env['__super_of__'])
         if name in ('setattr', 'getattr', 'hasattr', 'delattr') and name not in env and len(e.args) >= 2:
             # reflection on model objects with a concrete attribute name
             args = [self.eval(a, env) for a in e.args]
@@ -858,6 +896,8 @@ class FD:
         for p in params:
             if p not in env:
                 raise Inconclusive('fdeval: missing argument %s' % p)
+        if bound_self is not None and isinstance(getattr(fn, '_parent', None), ast.ClassDef):
+            env['__super_of__'] = (fn._parent, bound_self)      # for a zero-argument super() in this method
         if bound_self is not None and isinstance(bound_self, Obj) and '__classdef__' not in bound_self.attrs \
                 and isinstance(getattr(fn, '_parent', None), ast.ClassDef):
             bound_self.attrs['__classdef__'] = fn._parent
@@ -887,7 +927,15 @@ class FD:
                 try:
                     return self.eval(st.value, {})
                 except Inconclusive:
-                    return _MISSING
+                    # a class-level object the interpreter cannot build (`_ORIGINAL_STDOUT = sys.stdout`): an opaque
+                    # value distinct from everything else, one per class attribute
+                    cache = self.__dict__.setdefault('_class_opaque', {})
+                    key = (id(cd), attr)
+                    if key not in cache:
+                        v = Obj('%s.%s' % (cd.name, attr))
+                        v.attrs['__open__'] = True
+                        cache[key] = v
+                    return cache[key]
                 finally:
                     self._mods.pop()
         return _MISSING
